@@ -302,6 +302,26 @@ def check_fresh_pass(ctx: Context, rep, rule: str) -> None:
                         body = rets[0].value
                     elif local.is_generator():
                         ok, why = True, "local generator function"
+            # functools.partial(<generator function>, ..) (directly or bound
+            # once to a local): calling it calls the function
+            pg = g
+            if isinstance(pg, ast.Name):
+                from sa.valuation import single_defs as _sdp
+                pg = _sdp(fn).get(pg.id, pg)
+            if body is None and not ok and isinstance(pg, ast.Call) and \
+                    (dotted(pg.func) or "") in ("functools.partial",
+                                                "partial") and pg.args:
+                ref = pg.args[0]
+                fake = ast.Call(func=ref, args=[], keywords=[])
+                ast.copy_location(fake, pg)
+                ast.fix_missing_locations(fake)
+                tg = [t for t in ctx.res.resolve_ref(fn, ref)
+                      if t.kind == "internal" and t.fn is not None]
+                if tg and all(t.fn.is_generator() for t in tg):
+                    ok, why = True, "partial of a generator function"
+                else:
+                    why = "partial of something that is not a generator " \
+                        "function of the package"
             if body is not None:
                 why = "the body is not a call of a generator function of " \
                     "the package"
